@@ -41,6 +41,18 @@ CHECKS = {
              '(two permutation variants each), comparing the exact set of diagnostics by value identity.',
         note='universe: 17 raw values of depth <= 2, one row of <= 3 values, one include and one exclude combination '
              '(plus expression rows/sections/elements); YAML rendering in flow style; positions map diagnostics to values'),
+    'C20': dict(
+        category='model_checking', design_ref='5 (C20), 3.4 ProcPool, A.8, Appendix B',
+        technique='TLA+ spec ProcPool.tla (one action per critical section of process.go/LintFiles) model-checked by TLC '
+                  'incl. liveness; executions of the real pool recorded through verif-tag schedule-point hooks with '
+                  'stand-in tool processes and validated by TLC (ProcPoolTrace.tla); ToolInput.tla vectors (effective '
+                  'shell, Sanitize) replayed through the real rules and compared with what the stand-in received',
+        text='Exhaustive interleaving exploration of the pool design (|running| <= Cap, WaitGroup accounting, Collected, '
+             'NoLoss, fatal iff a tool failed, termination) for all small task layouts/outcome patterns, and trace '
+             'validation of hundreds of real multi-file runs under Cap 1, 2 and NumCPU with fault injection, each '
+             'run also judged by measurements taken by the real child processes (alive at return, max overlap, stdin).',
+        note='real goroutine interleavings are sampled with seeded delays, not enumerated; stand-in tools replace '
+             'shellcheck/pyflakes; Cap controlled through CPU affinity; scripts stay below the pipe buffer size'),
 }
 
 REASON_NOT_YET = 'check not built yet in this revision of /verif (planned, see DESIGN.md section 5); not claimed'
